@@ -229,42 +229,126 @@ func (c *Ctx) ruleCodegenFlow(rule string) {
 	// ref -> referenced id, otherwise the type id
 	if fn := g.FuncByKey["main.mustGenerateTypeDef"]; fn != nil {
 		k := key(rule, "main.mustGenerateTypeDef", "field type is the referenced ID for refs and the type ID otherwise")
-		ok := false
-		for _, b := range fn.Blocks {
-			for _, in := range b.Instrs {
-				phi, isPhi := in.(*ssa.Phi)
-				if !isPhi || len(phi.Edges) != 2 {
-					continue
-				}
-				var idEdge, tidEdge = -1, -1
-				for i, e := range phi.Edges {
-					p := g.ValPath(e)
-					if pc, isCall := e.(*ssa.Call); isCall && strings.HasSuffix(core.StaticCalleeName(&pc.Call), "parseType") && len(pc.Call.Args) == 1 {
-						p = g.ValPath(pc.Call.Args[0])
-					}
-					if strings.HasSuffix(p, ".Type.Id") {
-						idEdge = i
-					} else if strings.HasSuffix(p, ".Type.TypeID") {
-						tidEdge = i
-					}
-				}
-				if idEdge < 0 || tidEdge < 0 {
-					continue
-				}
-				pred := phi.Block().Preds[idEdge]
-				for _, cond := range append(core.CondsAt(pred), edgeCond(pred, phi.Block())...) {
-					if bin, ok2 := cond.V.(*ssa.BinOp); ok2 && bin.Op == token.EQL && cond.True {
-						if s, isStr := core.ConstString(bin.Y); isStr && s == "ref" && strings.HasSuffix(g.ValPath(bin.X), ".Type.TypeID") {
-							ok = true
-						}
+		// The value printed as a field's type is a phi. Its leaves: the reference's ID (as it is, or through the function
+		// that also makes the declared name of an object) where Type.TypeID == "ref" holds, parseType(Type.TypeID) where
+		// it does not. Nothing else.
+		isRefCond := func(b *ssa.BasicBlock, want bool) bool {
+			for _, cond := range core.CondsAt(b) {
+				if bin, ok2 := cond.V.(*ssa.BinOp); ok2 && bin.Op == token.EQL && cond.True == want {
+					if s, isStr := core.ConstString(bin.Y); isStr && s == "ref" && strings.HasSuffix(g.ValPath(bin.X), ".Type.TypeID") {
+						return true
 					}
 				}
 			}
+			return false
+		}
+		// the function that makes the declared name: the callee whose result is printed in the `type %v struct` header
+		var nameFn *ssa.Function
+		var fieldType ssa.Value
+		for _, b := range fn.Blocks {
+			for _, in := range b.Instrs {
+				pc, isCall := in.(*ssa.Call)
+				if !isCall || !strings.HasSuffix(core.StaticCalleeName(&pc.Call), "fmt.Fprintf") || len(pc.Call.Args) < 3 {
+					continue
+				}
+				format, _ := core.ConstString(pc.Call.Args[1])
+				args := variadicElems(pc.Call.Args[2])
+				switch {
+				case strings.Contains(format, "type %v struct") && len(args) >= 1:
+					if nc, ok := core.Unwrap(args[0]).(*ssa.Call); ok {
+						nameFn = nc.Call.StaticCallee()
+					}
+				case strings.Contains(format, "json:") && len(args) >= 2:
+					fieldType = core.Unwrap(args[1])
+				}
+			}
+		}
+		ok, why := fieldType != nil, "the Fprintf that prints a field was not found"
+		nID, nDeclared, nTID := 0, 0, 0
+		declaredGuarded, rawGuarded := true, true
+		if ok {
+			why = ""
+			seen := map[ssa.Value]bool{}
+			var leaves func(v ssa.Value, at, to *ssa.BasicBlock)
+			leaves = func(v ssa.Value, at, to *ssa.BasicBlock) {
+				if seen[v] {
+					return
+				}
+				seen[v] = true
+				if phi, isPhi := v.(*ssa.Phi); isPhi {
+					for i, e := range phi.Edges {
+						leaves(e, phi.Block().Preds[i], phi.Block())
+					}
+					return
+				}
+				declaredOutcome := func(want bool) bool {
+					conds := core.CondsAt(at)
+					if to != nil {
+						conds = append(conds, edgeCond(at, to)...)
+					}
+					for _, cond := range conds {
+						if ex, isEx := cond.V.(*ssa.Extract); isEx && ex.Index == 1 && cond.True == want {
+							if lk, isLk := ex.Tuple.(*ssa.Lookup); isLk && lk.CommaOk && strings.HasSuffix(g.ValPath(lk.X), ".Objects") && strings.HasSuffix(g.ValPath(lk.Index), ".Type.Id") {
+								return true
+							}
+						}
+					}
+					return false
+				}
+				if pc, isCall := v.(*ssa.Call); isCall && len(pc.Call.Args) == 1 {
+					callee := pc.Call.StaticCallee()
+					arg := g.ValPath(pc.Call.Args[0])
+					switch {
+					case callee != nil && strings.HasSuffix(core.StaticCalleeName(&pc.Call), "parseType") && strings.HasSuffix(arg, ".Type.TypeID"):
+						nTID++
+						if !isRefCond(at, false) {
+							ok, why = false, "the type mapping is used where Type.TypeID may be \"ref\""
+						}
+						return
+					case callee != nil && callee == nameFn && strings.HasSuffix(arg, ".Type.Id"):
+						nDeclared++
+						if !isRefCond(at, true) {
+							ok, why = false, "a referenced ID is used where Type.TypeID need not be \"ref\""
+						}
+						if !declaredOutcome(true) {
+							declaredGuarded = false
+						}
+						return
+					}
+				}
+				if strings.HasSuffix(g.ValPath(v), ".Type.Id") {
+					nID++
+					if !isRefCond(at, true) {
+						ok, why = false, "a referenced ID is used where Type.TypeID need not be \"ref\""
+					}
+					if !declaredOutcome(false) {
+						rawGuarded = false
+					}
+					return
+				}
+				ok, why = false, "the field type can be "+g.ValPath(v)+", which is neither the referenced ID nor the mapped type ID"
+			}
+			leaves(fieldType, fieldType.(ssa.Instruction).Block(), nil)
+			if ok && (nID+nDeclared == 0 || nTID == 0) {
+				ok, why = false, sprintf("%d leaves from Type.Id, %d from parseType(Type.TypeID)", nID+nDeclared, nTID)
+			}
 		}
 		if ok {
-			c.R.Ok(rule, k, g.Pos(fn.Pos()), "field type selection", "phi(Type.Id | Type.TypeID == \"ref\", Type.TypeID otherwise)")
+			c.R.Ok(rule, k, g.Pos(fn.Pos()), "field type selection", sprintf("phi leaves: %d x Type.Id as it is, %d x the declared name of Type.Id (all under Type.TypeID == \"ref\"), %d x parseType(Type.TypeID) otherwise", nID, nDeclared, nTID))
 		} else {
-			c.R.Bad(rule, k, g.Pos(fn.Pos()), "field type selection is not `referenced ID for refs, type ID otherwise`", "")
+			c.R.Bad(rule, k, g.Pos(fn.Pos()), "field type selection is not `referenced ID for refs, type ID otherwise`", why)
+		}
+		// an object of the schema is declared under a derived name (first letter in upper case): a reference to it must use
+		// that name, or it names a type the output does not declare (and, for an ID that is a Go keyword, does not parse)
+		k3 := key(rule, "main.mustGenerateTypeDef", "a reference to an object of the schema uses the name the object is declared under")
+		switch {
+		case nameFn == nil:
+			c.R.Ok(rule, k3, g.Pos(fn.Pos()), "name of a referenced object", "objects are declared under their ID as it is")
+		case nDeclared > 0 && declaredGuarded && (nID == 0 || rawGuarded):
+			c.R.Ok(rule, k3, g.Pos(fn.Pos()), "name of a referenced object", "where the referenced ID is found in the schema's object table the field type is "+nameFn.Name()+"(ID), the function that names the declaration; the ID as it is only where it is not found")
+		default:
+			c.R.Bad(rule, k3, g.Pos(fn.Pos()), "a reference to an object of the schema is typed with the raw ID, not with the name the object is declared under",
+				"the struct is declared as "+nameFn.Name()+"(id) but referred to as id: `pod` is declared `type Pod struct` and referenced as the undeclared `pod`; for an object named like a Go keyword (`map`, `type`, `range`) the output does not parse and the generator panics")
 		}
 		// the type mapping applies to type IDs only: a referenced object's ID must not go through it
 		k2 := key(rule, "main.mustGenerateTypeDef", "parseType is never applied to a referenced object's ID")
@@ -547,4 +631,139 @@ func selfTestRuneSlice() string {
 	}()
 	runeSliceSelfTest = &res
 	return res
+}
+
+// variadicElems: the values stored into the backing array of a variadic argument slice (`slice t[:]` of `new [n]T`).
+func variadicElems(v ssa.Value) []ssa.Value {
+	sl, ok := v.(*ssa.Slice)
+	if !ok {
+		return nil
+	}
+	al, ok := sl.X.(*ssa.Alloc)
+	if !ok {
+		return nil
+	}
+	byIdx := map[int64]ssa.Value{}
+	var max int64 = -1
+	for _, r := range *al.Referrers() {
+		ia, ok := r.(*ssa.IndexAddr)
+		if !ok {
+			continue
+		}
+		idx, isConst := core.ConstInt(ia.Index)
+		if !isConst {
+			continue
+		}
+		for _, r2 := range *ia.Referrers() {
+			if st, ok := r2.(*ssa.Store); ok && st.Addr == ssa.Value(ia) {
+				byIdx[idx] = st.Val
+				if idx > max {
+					max = idx
+				}
+			}
+		}
+	}
+	var out []ssa.Value
+	for i := int64(0); i <= max; i++ {
+		out = append(out, byIdx[i])
+	}
+	return out
+}
+
+// R-YAMLNIL (C19 "finishes without panicking"): yaml decodes `key:` without a body, `key: null` and `key: ~` into a
+// nil pointer when the map's element type is a pointer. In the generator, a field access through a pointer that was
+// read from such a map (lookup, range value, or a phi of those with fresh allocations) needs a nil test on the way.
+func (c *Ctx) ruleYamlNil(rule string) {
+	g := c.Gen
+	fromPtrMap := func(v ssa.Value) bool {
+		seen := map[ssa.Value]bool{}
+		var walk func(v ssa.Value) bool
+		walk = func(v ssa.Value) bool {
+			if seen[v] {
+				return false
+			}
+			seen[v] = true
+			switch x := v.(type) {
+			case *ssa.Lookup:
+				if m, ok := x.X.Type().Underlying().(*types.Map); ok {
+					_, isPtr := m.Elem().Underlying().(*types.Pointer)
+					return isPtr
+				}
+			case *ssa.Extract:
+				switch t := x.Tuple.(type) {
+				case *ssa.Lookup:
+					return x.Index == 0 && walk(t)
+				case *ssa.Next:
+					if rg, ok := t.Iter.(*ssa.Range); ok && x.Index == 2 {
+						if m, ok := rg.X.Type().Underlying().(*types.Map); ok {
+							_, isPtr := m.Elem().Underlying().(*types.Pointer)
+							return isPtr
+						}
+					}
+				}
+			case *ssa.Phi:
+				for _, e := range x.Edges {
+					if walk(e) {
+						return true
+					}
+				}
+			}
+			return false
+		}
+		return walk(v)
+	}
+	nonNilCond := func(conds []core.Cond, v ssa.Value) bool {
+		for _, cond := range conds {
+			if y, neq, ok := core.NilCmp(cond.V); ok && neq == cond.True && y == v {
+				return true
+			}
+		}
+		return false
+	}
+	var nonNil func(v ssa.Value, at *ssa.BasicBlock, depth int) bool
+	nonNil = func(v ssa.Value, at *ssa.BasicBlock, depth int) bool {
+		if depth > 4 {
+			return false
+		}
+		switch x := v.(type) {
+		case *ssa.Alloc:
+			return true
+		case *ssa.Phi:
+			for i, e := range x.Edges {
+				pred := x.Block().Preds[i]
+				if nonNil(e, pred, depth+1) || nonNilCond(edgeCond(pred, x.Block()), e) {
+					continue
+				}
+				return false
+			}
+			return len(x.Edges) > 0
+		}
+		return nonNilCond(core.CondsAt(at), v)
+	}
+	n := 0
+	for _, fn := range g.Funcs {
+		cnt := 0
+		seenVal := map[ssa.Value]bool{}
+		for _, b := range fn.Blocks {
+			for _, in := range b.Instrs {
+				fa, ok := in.(*ssa.FieldAddr)
+				if !ok || !fromPtrMap(fa.X) || seenVal[fa.X] && nonNil(fa.X, b, 0) {
+					continue
+				}
+				seenVal[fa.X] = true
+				n++
+				cnt++
+				k := key(rule, g.Key(fn), sprintf("field access #%d through a pointer read from a decoded map", cnt))
+				if nonNil(fa.X, b, 0) {
+					c.R.Ok(rule, k, g.InstrPos(fa), "dereference of a map element of pointer type", "on every path the pointer was found non-nil or replaced by a fresh value")
+				} else {
+					c.R.Bad(rule, k, g.InstrPos(fa), "a pointer read from a yaml-decoded map is dereferenced without a nil test",
+						"`name:` without a body (also `name: null`, `name: ~`) decodes to a nil pointer: the generator dies with a nil-pointer dereference for a schema whose names are all valid")
+				}
+			}
+		}
+	}
+	if n == 0 {
+		c.R.Ok(rule, key(rule, "generator", "no pointer-valued decoded maps"), "-", "decoded maps", "no field is accessed through a pointer read from a map")
+	}
 }
